@@ -1239,7 +1239,13 @@ esccpy(char *restrict tgt, size_t tz, const char *src, size_t sz)
 {
 	size_t ti = 0U;
 
-	for (size_t si = 0U; si < sz; si++) {
+	for (size_t si = 0U; si < sz; si++)
+#if defined ECHSE_VERIF
+	__CPROVER_assigns(si, ti, __CPROVER_object_upto(tgt, tz))
+	__CPROVER_loop_invariant(ti <= si && ti < tz && si <= sz + 1U)
+	__CPROVER_decreases(sz + 1U - si)
+#endif	/* ECHSE_VERIF */
+	{
 		switch ((tgt[ti] = src[si])) {
 		case '\r':
 			break;
